@@ -33,10 +33,9 @@ Proof. exact (LinkArith.model_int_rem a d). Qed.
 Print Assumptions model_int_rem.
 
 Theorem kernel_handlers  :
-  map fst GenArith.gen_int_div_handlers = [[90;101;114;111;68;105;118;105;115;105;111;110;69;114;114;111;114]%N] /\
-  map fst GenArith.gen_int_rem_handlers = [[90;101;114;111;68;105;118;105;115;105;111;110;69;114;114;111;114]%N] /\
+  handled_as GenArith.gen_int_div_handlers ZDE DIVERR = true /\ handled_as GenArith.gen_int_rem_handlers ZDE DIVERR = true /\
   map fst GenArith.gen_pow3_handlers = [[86;97;108;117;101;69;114;114;111;114]%N] /\
-  map snd GenArith.gen_int_div_handlers = map snd GenArith.gen_int_rem_handlers.
+  forallb (fun h => language_level (snd h)) (GenArith.gen_int_div_handlers ++ GenArith.gen_int_rem_handlers ++ GenArith.gen_pow3_handlers) = true.
 Proof. exact (LinkArith.kernel_handlers ). Qed.
 Print Assumptions kernel_handlers.
 
